@@ -106,7 +106,8 @@ func VerifyFunc(ld *Loader, pkg *Pkg, key string) (res *FuncResult) {
 	vc.strLits = map[string]Term{}
 	vc.revealAll = ct.Reveal
 	res.VC = vc
-	if ct.Trusted {
+	if ct.Trusted || ct.Havoc || ct.Inline {
+		// havoc contracts promise nothing, so there is nothing to verify
 		return res
 	}
 	fd := pkg.FindFunc(key)
